@@ -273,7 +273,7 @@ def _c05_cover_behaviours(ctx, name, base_id):
 def check_C05(ctx):
     _java_opts()
     binary = ctx.build("vals")
-    nsim = 64 if ctx.quick else 800
+    nsim = 64 if ctx.quick else 600
     chunks = 4 if ctx.quick else 16
     per = (nsim + chunks - 1) // chunks
 
